@@ -97,7 +97,7 @@ fam(Family("arith", {
     "e": ["1", "a", "b", "x", "y",
           "(+ $e $e)", "(+ $e $e $e)", "(- $e $e $e)", "(* $e $e)", "(< $e $e)", "(< $e $e $e)",
           "(set x $e)", "(set y $e)", "(t $e)", "(do $e $e)", "(if $e $e $e)"],
-}, quick=4, thorough=5, extra=6, ctx_thorough=ALL_CTX, doc="inlined variadic operators, set, do, if, tracer"))
+}, quick=5, thorough=6, extra=6, ctx_thorough=ALL_CTX, doc="inlined variadic operators, set, do, if, tracer"))
 
 
 # ---- setop: (set v (op l l [l [l]])) completely, the shape of the known defect D2
@@ -121,7 +121,7 @@ def _setop(tier):
     return out
 
 
-product_family("setop", _setop, ctx_quick=CORE_CTX, ctx_thorough=ALL_CTX, doc="set of a variadic operator form")
+product_family("setop", _setop, ctx_thorough=ALL_CTX, doc="set of a variadic operator form")
 
 
 # ---- control: conditionals and short-circuit macros over constants (compile-time folding) and tracers
@@ -152,7 +152,7 @@ fam(Family("loops", {
     "w": ["(t v)", "(set acc (+ acc v))", "(break)", "(if (= v 5) (break))", "(array/push fs (fn [] v))", "(if $c $w)"],
     "c": ["(= i 1)", "(= i 2)", "(> i 1)", "true", "nil", "(t (< i 2))"],
     "d": ["(= j 1)", "(= i j)", "(> i 1)"],
-}, quick=4, thorough=5, extra=6, ctx_quick=CORE_CTX, ctx_thorough=ALL_CTX))
+}, quick=5, thorough=6, extra=7, ctx_thorough=ALL_CTX))
 
 
 # ---- closures: capture of mutable variables, sharing, capture after/before mutation, nesting
@@ -173,7 +173,7 @@ def _clos_rules():
     return r
 
 
-fam(Family("closures", _clos_rules(), quick=4, thorough=5, extra=6, ctx_quick=CORE_CTX, ctx_thorough=ALL_CTX))
+fam(Family("closures", _clos_rules(), quick=4, thorough=5, extra=6, ctx_thorough=ALL_CTX))
 
 
 # ---- params: parameter lists x argument lists x call styles
@@ -206,7 +206,7 @@ def _params(tier):
     return out
 
 
-product_family("params", _params, ctx_quick=CORE_CTX, ctx_thorough=ALL_CTX)
+product_family("params", _params, ctx_thorough=ALL_CTX)
 
 
 # ---- destructure: patterns x values x binding forms
@@ -235,7 +235,7 @@ def _destr(tier):
     return out
 
 
-product_family("destructure", _destr, ctx_quick=CORE_CTX, ctx_thorough=ALL_CTX)
+product_family("destructure", _destr, ctx_thorough=ALL_CTX)
 
 
 # ---- quasi: quote, quasiquote, unquote, splice, nesting
@@ -247,7 +247,7 @@ fam(Family("quasi", {
     "n": ["1", "sym", "(unquote $q)", "($n $n)", "(unquote (unquote a))", "[$n]"],
     "z": ["a", "nil", "(quasiquote $q)"],
     "d": ["1", "sym", "(a b)", "[a (t 1)]", "@[x]", "{:k v}", "()", "(quote a)", "(unquote a)", "(splice x)", "($d $d)", "[$d]"],
-}, quick=4, thorough=5, extra=6, ctx_quick=CORE_CTX, ctx_thorough=ALL_CTX))
+}, quick=5, thorough=6, extra=6, ctx_thorough=ALL_CTX))
 
 
 # ---- macros: the core control macros
@@ -278,7 +278,7 @@ def _macro_rules():
     return r
 
 
-fam(Family("macros", _macro_rules(), quick=3, thorough=4, extra=4, ctx_quick=CORE_CTX, ctx_thorough=ALL_CTX))
+fam(Family("macros", _macro_rules(), quick=3, thorough=4, extra=4, ctx_thorough=ALL_CTX))
 
 
 # ---- tailcalls: recursion, tail calls through every tail position, frame reuse
@@ -330,7 +330,7 @@ def _tail(tier):
     return out
 
 
-product_family("tailcalls", _tail, ctx_quick=CORE_CTX, ctx_thorough=ALL_CTX)
+product_family("tailcalls", _tail, ctx_thorough=ALL_CTX)
 
 
 # ---- errors: raising forms at every position, caught and uncaught, attribution to line/column
@@ -354,7 +354,7 @@ fam(Family("scopes", {
           "(do (var x 1) (def f (fn [] (set x (+ x 1)))) (f) x)", "(tuple x (do (var x 5) (set x (+ x 1))) x)",
           "(do (def a 3) (def a (+ a 1)) a)", "(if (def p $e) p :no)", "(do (if true (def a 9)) a)",
           "(upscope (def b $e) b)", "(while (def p (< x 103)) (set x (+ x 1)))"],
-}, quick=3, thorough=4, extra=5, ctx_quick=CORE_CTX, ctx_thorough=ALL_CTX))
+}, quick=3, thorough=4, extra=5, ctx_thorough=ALL_CTX))
 
 
 # ---- data: constructors, splice, indexed access, put / set of a field, keywords and structures as functions
@@ -365,7 +365,7 @@ fam(Family("data", {
     "l": ["[1 2]", "@[a x]", "[$e $e]", "(tuple $e)", "[]"],
     "d": ["{:k 1}", "@{:k a}", "{:j 2}", "nil", "{:k $e}"],
     "m": ["@{}", "@{:k 0}", "@[1 2]"],
-}, quick=3, thorough=4, extra=5, ctx_quick=CORE_CTX, ctx_thorough=ALL_CTX))
+}, quick=4, thorough=5, extra=5, ctx_thorough=ALL_CTX))
 
 
 # ---- mixed: the most important productions of every family together
@@ -374,7 +374,7 @@ fam(Family("mixed", {
           "(let [p $e] (tuple p $e))", "(try $e ([err] err))", "(error $e)", "[$e ;[$e]]", "(and $e $e)",
           "(do (var i 0) (while (< i 2) (++ i) $e) i)", "(do (def f (fn [p] $e)) (f $e))", "(quasiquote (a (unquote $e)))",
           "(seq [i :range [0 2]] $e)", "(def [p q] [$e $e])", "(< $e $e $e)"],
-}, quick=3, thorough=4, extra=5, ctx_thorough=ALL_CTX))
+}, quick=4, thorough=5, extra=5, ctx_thorough=ALL_CTX))
 
 
 # ---- sweep: the number of live locals crosses the near/far register boundary (240 and 256) one by one
@@ -450,14 +450,14 @@ product_family("keys-odd-args", lambda tier: [
     "(do (defn f [p &keys q] (tuple p q)) (f 1 :k))",
     "(do (defn f [&named p] p) (f :p 1 :q))",
     "(do (defn f [&keys p] p) (f a b x))",
-], ctx_quick=CORE_CTX, ctx_thorough=ALL_CTX)
+], ctx_thorough=ALL_CTX)
 
-# ---- far-error-operand: (error v) in a function with more than 240 live locals.  Known defect, see NOTES.md.
+# ---- far-error-operand: (error v) in a function with more than 240 live locals.
+# (Was a defect -- fixed in /repo by 76f7bf9 / 716c04b; now ordinary cases, see NOTES.md.)
 fam(Family("far-error-operand", {
     "e": ["(error :e1)", "(error 1)", "(error (tuple a x))", "(error x)", "(do (var p 5) (error p))", "(if a (error :e1) 2)",
           "(try (error :e1) ([err] err))"],
-}, quick=1, thorough=1, ctx_quick=["far", "far-tail", "far-temps", "fn-def"], ctx_thorough=["far", "far-tail", "far-temps", "fn-def"],
-    keep_far="far-error-operand"))
+}, quick=1, thorough=1, ctx_quick=["far", "far-tail", "far-temps", "fn-def"], ctx_thorough=["far", "far-tail", "far-temps", "fn-def"]))
 
 # ---- far-rest-destructure: [p & q] destructuring in a function with more than 240 live locals.  Known defect.
 fam(Family("far-rest-destructure", {
